@@ -400,6 +400,28 @@ func checkC01(c *Ctx) {
 	// ---- C01.11 "ClientConf generation": the station derives from the generation as the current subnet file defines it -
 	// a reload replaces the selector as a whole (shared with C07.8)
 	checkSelectorReplaced(c, "C01.11")
+	// ---- C01.13 the generation a registration names is the client's: the registrars rewrite it only on the bidirectional
+	// path, where the newer ClientConf goes back to the client in the same response; a unidirectional client never learns
+	// of a rewrite and keeps deriving from the generation it holds
+	r.Rule("C01.13", "the registrars rewrite a registration's generation only on the bidirectional path", 1)
+	{
+		n := 0
+		for _, f := range c.funcsOfPkgs("pkg/regserver/apiregserver", "pkg/regserver/dnsregserver", "pkg/regserver/regprocessor") {
+			if strings.Contains(r.posStr(f.Pos()), "_test") {
+				continue
+			}
+			for _, st := range fieldStores(f, "proto.ClientToStation", "DecoyListGeneration") {
+				n++
+				okk := strings.Contains(strings.ToLower(f.Name()), "bidirectional") || onlyCalledFromMatching(f, func(g *ssa.Function) bool { return strings.Contains(strings.ToLower(g.Name()), "bidirectional") || strings.Contains(g.Name(), "processBdReq") }, 2)
+				r.Check(okk, "C01.13", fnName(f)+": rewrites ClientToStation.DecoyListGeneration", st.Pos(), fnName(f), "on the bidirectional path only",
+					"the generation of a registration is replaced on a path that is not (only) the bidirectional one: a unidirectional client gets no response, keeps the ClientConf it has and derives its phantom from its own generation, while the stations derive from the rewritten one")
+			}
+		}
+		if n == 0 {
+			r.Unk("C01.13", "stores to ClientToStation.DecoyListGeneration in the registrars", token.NoPos, "", "none found")
+		}
+	}
+
 	// ---- C01.12 the client side of "the same ClientConf generation": a pushed ClientConf replaces the stored one as a
 	// whole - the object installed by SetClientConf is the one it was handed (a merge appends the repeated subnet groups
 	// of the new generation to the old ones: new generation number, selection over a subnet list no station has)
@@ -1632,4 +1654,29 @@ func argName(f *ssa.Function, i int) string {
 		return pname(f.Params[i])
 	}
 	return "?"
+}
+
+// onlyCalledFromMatching: every static call site of the unexported function f is in a function accepted by ok (or in
+// a function for which the same holds, up to depth levels).
+func onlyCalledFromMatching(f *ssa.Function, ok func(*ssa.Function) bool, depth int) bool {
+	if f.Object() == nil || f.Parent() != nil {
+		return false
+	}
+	sites, asValue := callersOf(f)
+	if asValue || len(sites) == 0 {
+		return false
+	}
+	for _, s := range sites {
+		p := s.Parent()
+		if p == nil {
+			return false
+		}
+		if ok(p) {
+			continue
+		}
+		if depth <= 0 || !onlyCalledFromMatching(p, ok, depth-1) {
+			return false
+		}
+	}
+	return true
 }
